@@ -8,6 +8,34 @@ CHECKS = {
   technique='differential property-based testing (Hypothesis): keyed run vs per-group plain run of generated pipelines',
   text='For generated type-correct pipelines over the whole dual-mode catalogue (incl. nested tee_map, all joins) and generated keyed inputs/interleavings, every group\'s output under group_by+with_memory_store, under raw mux events with sparse key indices and under multiplex() must equal, item by item, the output of the same pipeline on that group alone as a plain observable; a failing assert_ must fail the keyed stream with the same exception type. Exploration over ~8k (quick) / ~700k (thorough) cases.',
   note='Both sides are the real code (no model in the comparison); the reference model is only used to reject cases where first/last/mean(reduce) would see an empty sequence. User functions come from finite pure families; streaming scans use non-mutating accumulators (aliasing of re-emitted mutable state is outside the property).'),
+ 'C02': dict(
+  technique='differential + metamorphic property-based testing (Hypothesis): nested lifetime vs standalone run, interleaving A vs B, raw slot histories',
+  text='Every key lifetime observed (taps) inside group_by/roll/split/time_split nestings is re-run alone through the same generated stateful pipeline with a fresh store and must produce the same output; two interleavings of the same per-key sequences must give identical per-key outputs; raw histories on sparse/descending/re-used slot indices must match each lifetime run alone. Exploration.',
+  note='Both sides are the real code; the model only rejects out-of-domain cases (mean of nothing). Depth of nesting <= 2 parents + 2 inside the pipeline.'),
+ 'C03': dict(
+  technique='runtime invariant monitor on every MuxObservable subscription under property-based generation + bounded-exhaustive roll parameters',
+  text='A monitor wrapped around the observer of every rs.MuxObservable subscription (26 operator boundaries reached, incl. those inside composite operators) checks the key lifecycle, uniqueness of live slot indices and no-live-key-at-completion on generated pipelines nested to depth 3, raw histories and multiplex; all (window,stride,length) <= (5,5,13) quick / (7,7,25) thorough for roll alone and under group_by. Exploration.',
+  note='The monitor is installed by monkeypatching rs.MuxObservable.__init__ in the check process; pipelines contain no raising user function.'),
+ 'C04': dict(
+  technique='model-based property testing: list-scan partition reference vs head-tap observation and full output',
+  text='group_by over generated keys that are equal but not identical objects (big ints, tuples, run-time strings, 1/1.0/True, None), with to_list / identity / generated stateful inner pipelines, alone and inside group_by/roll/split; the groups seen by a tap and the whole output sequence must equal the reference partition (by ==, first-appearance completion order). Exploration.',
+  note='Trusts the reference model; floats from different algorithms compared with rel. tol. 1e-9.'),
+ 'C05': dict(
+  technique='bounded-exhaustive enumeration of (window, stride, length) + model-based property testing with clocked taps',
+  text='All 1<=w,s<=8, 0<=n<=40 (thorough: <=12, <=120): window contents == slices [js, js+w), opening while item js is processed, full windows closed with their w-th item, closing order == opening order, to_list in that order; generated cases put roll under group_by with interleaved keys, inside roll/split and around arbitrary inner pipelines (vs reference model).',
+  note='Exhaustive within the stated bounds only (exhaustive sub-check), exploration elsewhere. The order in which one item reaches several windows is not judged.'),
+ 'C06': dict(
+  technique='model-based property testing with clocked taps: segments vs maximal runs computed by a plain loop',
+  text='split over predicate values that are equal-not-identical objects, at top level, under group_by with interleaved keys and nested in roll/split: segments must equal the maximal runs by !=, open with the first item of a run, close with the next run / key completion, none for an empty key; whole output vs reference model. Exploration.',
+  note='Trusts the reference loop; predicate values obey ==/!= consistency.'),
+ 'C07': dict(
+  technique='model-based property testing + bounded-exhaustive enumeration of timestamp/flag sequences and configurations',
+  text='Non-empty windows observed by a tap must equal the sessions computed by a direct transcription of the statement, for generated non-decreasing timestamps (equal stamps, gaps == timeout), all combinations of active/inactive/closing/include, top level and under group_by; every delta sequence over {0..3} x flags up to length 2 (quick) / 5 (thorough) x all configurations is enumerated.',
+  note='Empty windows after an included closing item are ignored (reading recorded in DESIGN.md 1.4).'),
+ 'C08': dict(
+  technique='differential property-based testing: real tee_map vs cause-tagged branches run alone + join rule',
+  text='Each generated branch pipeline is run alone (real code) with event-numbering taps; ordering the outputs by (event, branch, emission) and applying the merge/zip/combine_latest rule must reproduce the real tee_map output exactly: on one key, per key lifetime under group_by/roll/split/time_split (slot re-use), and on plain Subject-driven observables with early-completing branches. Exploration.',
+  note='Only fan-out and join are modelled; relies on synchronous execution for cause tagging.'),
  'C11': dict(
   technique='model-based property testing with a stepped (Subject-driven) source and a timed reference model',
   text='Every output of generated pipelines (nested windows, groups, tees; plain dual-mode pipelines with early completion) is stamped with the source push during which it was emitted; per push the multiset of outputs must equal that of the reference model, so nothing is early and nothing is late. Exploration.',
